@@ -5,6 +5,7 @@ import (
 	"errors"
 	"fmt"
 	"net"
+	"strings"
 	"sync"
 	"time"
 
@@ -332,6 +333,17 @@ func (s *Server) getOrCreateConn(udpConn *coapNet.UDPConn, raddr *net.UDPAddr, l
 	if localAddrCanFallbackToWildcard(laddr) {
 		if cc = s.conns[getConnKey(raddr, toWildcardLocalAddr(laddr))]; cc != nil {
 			return cc, false
+		}
+	} else if laddr != nil && (len(laddr.IP) == 0 || laddr.IP.IsUnspecified()) {
+		// The other way round: the peer has talked first, so its connection is keyed by the concrete address its
+		// datagrams were sent to, and now a connection to it is asked for without a concrete local address
+		// (NewConn on a wildcard-bound listener). It is the same conversation: a second connection would send
+		// from the same socket but never see the peer's answers, which go to the first.
+		prefix := raddr.String() + "-"
+		for key, c := range s.conns {
+			if strings.HasPrefix(key, prefix) && c.Context().Err() == nil {
+				return c, false
+			}
 		}
 	}
 
